@@ -37,6 +37,9 @@ def run(snap, tier, seed, t0, replay):
     return driver.simple_run("C14", snap, tier, seed, t0, replay, LEVEL, RULE, ASSUME, shard_args, floors_fn=floors)
 
 
+C14_NAMES = ["ophelia", "two words", "x", "a b ", "dagger"]      # (values with blanks: some helpers normalise them)
+
+
 class Registry:
     def __init__(self, rec):
         self.rec = rec
@@ -268,9 +271,9 @@ def worker(args):
         t = rng.choice(usable)
         r = rng.random()
         if r < 0.4:
-            return vocab.valid_string(t, rng, small=True, pool=gen.SAFE_NAME_POOL[:4])
+            return vocab.valid_string(t, rng, small=True, pool=C14_NAMES)
         if r < 0.8:
-            return vocab.search_string(t, rng, small=True, pool=gen.SAFE_NAME_POOL[:4], p_sym=0.6)[0]
+            return vocab.search_string(t, rng, small=True, pool=C14_NAMES, p_sym=0.6)[0]
         return gen.mutate_string(vocab.valid_string(t, rng, small=True), rng, vocab, lits)[0]
 
     for b in range(args["batches"]):
